@@ -614,10 +614,12 @@ def invertDocAdj (d : DocAdj) : DocAdj := { d with amount := neg d.amount, base 
 
 def invertAdvance (a : Advance) : Advance := { a with amount := neg a.amount }
 
-/-- the document `Invert` recalculates (externally supplied `totals.rounding` is dropped with the totals) -/
+/-- the document `Invert` recalculates (an externally supplied `totals.rounding` is inverted like every
+other amount: /repo d6d7c00; before that it was dropped with the totals and `Invert` failed its own check) -/
 def invertDoc (d : Doc) : Doc :=
   { d with lines := d.lines.map invertLine, discounts := d.discounts.map invertDocAdj,
-           charges := d.charges.map invertDocAdj, advances := d.advances.map invertAdvance, rounding := none }
+           charges := d.charges.map invertDocAdj, advances := d.advances.map invertAdvance,
+           rounding := d.rounding.map neg }
 
 /-- a calculated line with every figure negated -/
 def negLineOut (l : Line) : Line :=
